@@ -32,6 +32,10 @@ def hStep : Handler := fun op j =>
   | "check_balance" => do
       let rs ← getRxns j "rxns"
       pure (showBalance (← getBool j "throw") (checkBalance (← getSubs j "subs") rs (← getBool j "strict")))
+  | "check_balance_terms" => do
+      -- reactions written as strings with (possibly repeated) terms
+      let rs ← (← getArr j "rxns_terms").mapM asRxnTerms
+      pure (showBalance (← getBool j "throw") (checkBalance (← getSubs j "subs") rs (← getBool j "strict")))
   | "construct" => do
       -- constructor with the selected checks; `dup_ok` = outcome of the selected ones of check_duplicate / check_duplicate_names
       let rs ← getRxns j "rxns"
